@@ -13,6 +13,7 @@ GzCompSeqs == {<<"gzip">>}
 QForms     == Forms
 QCodecs    == {"proto", "json"}
 QComps     == {"", "gzip"}
+MComps     == {"", "gzip", "identity"}
 NoComps    == {""}
 QMethods   == {"Post", "Query", "CStream", "SStream", "Bidi"}
 EMethods   == {"Post", "Query", "SStream"}
@@ -40,4 +41,5 @@ TCodecSeqs == QCodecSeqs \cup {<<"json", "proto">>, <<"text">>, <<"text", "proto
 TCompSeqs  == QCompSeqs \cup {<<"zz">>, <<"gzip", "zz">>}
 TCodecs    == {"proto", "json", "text"}
 TComps     == {"", "gzip", "zz"}
+TMComps    == {"", "gzip", "zz", "identity"}
 =============================================================================
